@@ -1,6 +1,8 @@
 ----------------------------- MODULE MC_Buffer -----------------------------
 (* Bounded instance of Buffer.tla for TLC: the alphabets of the operations, *)
 (* and the export of the reachable graph for the replay harness (C19, A).   *)
+(* An empty alphabet switches the operation off: every config is a family   *)
+(* that concentrates on some of the dimensions.                             *)
 EXTENDS Buffer, Json, TLCExt
 
 CONSTANTS MaxOps,    \* operations per run (closes that release the remaining views come on top)
@@ -9,45 +11,100 @@ CONSTANTS MaxOps,    \* operations per run (closes that release the remaining vi
           Len0s,     \* pre-existing lengths
           Sizes,     \* lengths offered to write
           ExtExact, ExtNoHint, ExtUnder, ExtOver,   \* lengths yielded by the iterator given to extend, per kind of size_hint
-          AdvSizes,  \* lengths for advance / scribble
-          Avails,    \* bytes available in the reader of read_buffer
+          AdvSizes,  \* lengths for advance
+          ScrSizes,  \* lengths for scribble
+          Avails,    \* bytes available in the byte-slice reader of read_buffer / read_buffer_ref
           CapAts,    \* arguments of cap_at
           CapAts2,   \* chains of two different cap_at arguments out of this set
+          RelCaps,   \* cap_at arguments relative to what is left: remaining + x - 1 for x in this set (a cfg file has no
+                     \* negative numbers: 0 = one less than what is left, 1 = exactly what is left, 2 = one more)
           OverKinds, \* counts above what is left: subset of {"plus1", "total", "total1"} (remaining + 1, size of the
                      \* view when it already holds bytes, size of the view + 1)
-          TouchCaps  \* cap_at arguments for intermediates dropped without use (besides the uncapped one)
+          TouchCaps, \* cap_at arguments for intermediates dropped without use (besides the uncapped one)
+          TouchOn,   \* TRUE: intermediates dropped without use are explored
+          CloseInitOn, UnwindOn,
+          ViaSet,    \* ways of creating a view besides with_buffer: subset of {"manual", "packer"}
+          ViaCaps,   \* cap_at arguments combined with those (besides the uncapped one)
+          Readers,   \* kinds of readers besides the byte slice
+          RdAvails,  \* bytes held by those
+          RdCaps,    \* cap_at arguments for read_buffer with those (besides the uncapped one)
+          UserWho,   \* call sites inside libtw2: subset of {"huffd", "strbytes"}
+          UserSizes, \* bytes they write
+          UserCaps,  \* cap_at arguments for their target (besides the uncapped one)
+          PkKinds,   \* Packer operations: subset of PkOps
+          PkSizes,   \* lengths of their byte arguments
+          PkInts,    \* arguments of write_int
+          PkNegInts, \* ... and those of the negative ones (x stands for -x)
+          GrowBy,    \* Vec::reserve_exact between views: added capacity
+          RawDirtyNs \* BufferRef::new with a non-zero count
 
 Fresh(n) == [j \in 1..n |-> 10 * (ops + 1) + j]
 Mem0(c, l) == [i \in 1..c |-> IF i <= l THEN 100 + i ELSE 200 + i]
+Room == IF phase = "closed" THEN OwnerSpare ELSE IF phase = "open" THEN Rem(Top) ELSE 0
 Chains == {<<>>} \cup {<<k>> : k \in CapAts}
           \cup {<<p[1], p[2]>> : p \in {q \in CapAts2 \X CapAts2 : q[1] # q[2]}}
+          \cup {<<Room + d - 1>> : d \in {e \in RelCaps : Room + e - 1 >= 0}}
+One(S) == {<<>>} \cup {<<k>> : k \in S}
+OpenArgs == {[ks |-> ks, via |-> "with"] : ks \in Chains}
+            \cup {[ks |-> ks, via |-> v] : ks \in One(ViaCaps), v \in ViaSet}
+
+\* the variable-length integer of the packer (what TLC expects write_int to write; the harness compares it
+\* with what the real packer writes into an ample buffer and reports a different codec as drift)
+RECURSIVE IntCont(_)
+IntCont(r) == IF r = 0 THEN <<>> ELSE <<(IF r \div 128 # 0 THEN 128 ELSE 0) + (r % 128)>> \o IntCont(r \div 128)
+IntEnc(v) == LET s == IF v < 0 THEN 1 ELSE 0
+                 u == IF v < 0 THEN -v - 1 ELSE v IN
+             <<(IF u \div 64 # 0 THEN 128 ELSE 0) + (64 * s) + (u % 64)>> \o IntCont(u \div 64)
+
+SliceRd == [k |-> "slice", j |-> 0, bs2 |-> <<>>]
+RdRec(k) == [k |-> k,
+             j |-> IF k = "repeat" THEN 77 ELSE IF k = "bufreader" THEN 2 ELSE IF k \in {"take", "short", "err"} THEN 1 ELSE 0,
+             bs2 |-> IF k = "chain" THEN <<91, 92>> ELSE <<>>]
+RdCases == {<<n, SliceRd>> : n \in Avails}
+           \cup {<<n, RdRec(k)>> : n \in RdAvails, k \in Readers \ {"empty", "repeat"}}
+           \cup {<<0, RdRec(k)>> : k \in Readers \cap {"empty", "repeat"}}
+RdChains(rd) == IF rd.k = "slice" THEN Chains ELSE One(RdCaps)
 
 NSetup == /\ phase = "idle"
           /\ \E k \in MCKinds, c \in Caps, l \in Len0s :
                l <= c /\ Step([a |-> "setup", kind |-> k, cap |-> c, len0 |-> l, mem0 |-> Mem0(c, l)])
-NOpen == ops < MaxOps /\ \E ks \in Chains : Step([a |-> "open", ks |-> ks])
+NOpen == ops < MaxOps /\ \E o \in OpenArgs : Step([a |-> "open", ks |-> o.ks, via |-> o.via])
 NWrite == ops < MaxOps /\ \E n \in Sizes : Step([a |-> "write", bs |-> Fresh(n)])
 ExtCases == {<<n, "exact">> : n \in ExtExact} \cup {<<n, "nohint">> : n \in ExtNoHint}
             \cup {<<n, "under">> : n \in ExtUnder} \cup {<<n, "over">> : n \in ExtOver}
 NExtend == ops < MaxOps /\ \E c \in ExtCases : Step([a |-> "extend", bs |-> Fresh(c[1]), it |-> c[2]])
 NAdvance == ops < MaxOps /\ \E n \in AdvSizes : Step([a |-> "advance", bs |-> Fresh(n)])
-NScribble == ops < MaxOps /\ \E n \in AdvSizes : n > 0 /\ Step([a |-> "scribble", bs |-> Fresh(n)])
+NScribble == ops < MaxOps /\ \E n \in ScrSizes : n > 0 /\ Step([a |-> "scribble", bs |-> Fresh(n)])
 NClose == Step([a |-> "close"])                      \* always possible: every view is released in the end
-NCloseInit == ops < MaxOps /\ Step([a |-> "closeinit"])
-NUnwind == ops < MaxOps /\ Step([a |-> "unwind"])
-NRead == ops < MaxOps /\ \E n \in Avails, ks \in Chains : Step([a |-> "read", bs |-> Fresh(n), ks |-> ks])
-NReadClose == ops < MaxOps /\ \E n \in Avails : Step([a |-> "readclose", bs |-> Fresh(n), claim |-> 0])
+NCloseInit == ops < MaxOps /\ CloseInitOn /\ Step([a |-> "closeinit"])
+NUnwind == ops < MaxOps /\ UnwindOn /\ Step([a |-> "unwind"])
+NRead == ops < MaxOps /\ \E c \in RdCases : \E ks \in RdChains(c[2]) :
+            Step([a |-> "read", bs |-> Fresh(c[1]), ks |-> ks, rd |-> c[2]])
+NReadClose == ops < MaxOps /\ \E c \in RdCases :
+            Step([a |-> "readclose", bs |-> Fresh(c[1]), claim |-> 0, rd |-> c[2]])
 OverCounts == IF phase = "open"
               THEN {c \in ({Rem(Top) + 1 : x \in OverKinds \cap {"plus1"}} \cup {Top.spare : x \in OverKinds \cap {"total"}}
                            \cup {Top.spare + 1 : x \in OverKinds \cap {"total1"}}) : c > Rem(Top)}
               ELSE {}
 NOverAdvance == ops < MaxOps /\ \E c \in OverCounts : Step([a |-> "overadvance", n |-> c])
-NReadOver == ops < MaxOps /\ \E c \in OverCounts : Step([a |-> "readclose", bs |-> Fresh(2), claim |-> c])
-NTouch == ops < MaxOps /\ \E ks \in {<<>>} \cup {<<k>> : k \in TouchCaps} : Step([a |-> "touch", ks |-> ks])
+NReadOver == ops < MaxOps /\ \E c \in OverCounts : Step([a |-> "readclose", bs |-> Fresh(2), claim |-> c, rd |-> SliceRd])
+NTouch == ops < MaxOps /\ TouchOn /\ \E ks \in One(TouchCaps) : Step([a |-> "touch", ks |-> ks])
+NReopen == ops < MaxOps /\ Step([a |-> "reopen"])
+NRawDirty == ops < MaxOps /\ \E n \in RawDirtyNs : Step([a |-> "rawdirty", n |-> n])
+NUser == ops < MaxOps /\ \E w \in UserWho, n \in UserSizes, ks \in One(UserCaps) :
+            Step([a |-> "user", who |-> w, bs |-> IF w = "strbytes" THEN Fresh(n) \o <<0>> ELSE Fresh(n), ks |-> ks, ret |-> TRUE])
+PkCases == {[op |-> o, v |-> 0, bs |-> Fresh(n)] : o \in PkKinds \cap {"raw", "rest"}, n \in PkSizes}
+           \cup {[op |-> "string", v |-> 0, bs |-> Fresh(n) \o <<0>>] : n \in {m \in PkSizes : "string" \in PkKinds}}
+           \cup {[op |-> "data", v |-> n, bs |-> IntEnc(n) \o Fresh(n)] : n \in {m \in PkSizes : "data" \in PkKinds}}
+           \cup {[op |-> "int", v |-> v, bs |-> IntEnc(v)] : v \in {w \in PkInts \cup {-x : x \in PkNegInts} : "int" \in PkKinds}}
+NPk == ops < MaxOps /\ \E c \in PkCases : Step([a |-> "pk", op |-> c.op, v |-> c.v, bs |-> c.bs])
+NGrow == ops < MaxOps /\ phase = "closed" /\ \E g \in GrowBy :
+            Step([a |-> "grow", cap |-> cap + g, tail |-> [i \in 1..(cap + g - olen) |-> 150 + i]])
 NFinal == Step([a |-> "final"])
 
 Next == \/ NSetup \/ NOpen \/ NWrite \/ NExtend \/ NAdvance \/ NScribble
-        \/ NClose \/ NCloseInit \/ NUnwind \/ NRead \/ NReadClose \/ NOverAdvance \/ NReadOver \/ NTouch \/ NFinal
+        \/ NClose \/ NCloseInit \/ NUnwind \/ NRead \/ NReadClose \/ NOverAdvance \/ NReadOver \/ NTouch
+        \/ NReopen \/ NRawDirty \/ NUser \/ NPk \/ NGrow \/ NFinal
 
 Spec == Init /\ [][Next]_vars
 
